@@ -84,7 +84,7 @@ impl<'a> IrEmitter<'a> {
             }
             IrExprKind::Field { object, field } => {
                 let o = self.emit_lvalue_expr(object)?;
-                let f = format_ident!("{}", field);
+                let f = format_ident!("{}", Self::escape_keyword(field));
                 // Only parenthesize when needed.
                 //
                 // `emit_lvalue_expr` may emit a leading `*` for list indexing (`*list_get_mut(..)`).
@@ -120,7 +120,7 @@ impl<'a> IrEmitter<'a> {
             }
             AssignTarget::Field { object, field } => {
                 let o = self.emit_lvalue_expr(object)?;
-                let f = format_ident!("{}", field);
+                let f = format_ident!("{}", Self::escape_keyword(field));
                 // Same precedence rule as in `emit_lvalue_expr`: only parenthesize when the receiver may start with a
                 // unary `*` (e.g. list index lvalues).
                 if matches!(object.kind, IrExprKind::Index { .. }) {
